@@ -107,7 +107,7 @@ def run(ctx, build):
     tails = 1300 if ctx.thorough else 130
     scenarios = [('fat12', False), ('fat16', True), ('fat32', True)] if not ctx.widen else [('fat12', False), ('fat16', True), ('fat32', True), ('fat16', False)]
     for ft, in_subdir in scenarios:
-        g = fatimg.Geometry(ft, 900 if ctx.thorough else 400, spc=1, bps=512, nfats=2, root_entries=(8192 if ctx.thorough else 1024), type_string=True)
+        g = fatimg.Geometry(ft, 2400 if ctx.thorough else 400, spc=1, bps=512, nfats=2, root_entries=(8192 if ctx.thorough else 1024), type_string=True)
         b = fatimg.Builder(g, rng)
         buf = bytearray(b.img)
         with warnings.catch_warnings():
